@@ -29,6 +29,18 @@ structure Inst where
   D     : Nat → Nat → Int     -- `orig_distances`
   d0    : Nat → Int           -- `td["distances"]` handed to reset (generator: constant √2·span)
 
+/-- `get_distance_matrix(locs)[a][b]` for coordinates on an integer grid (`x`, `y` in grid units):
+`(locs[a] - locs[b]).norm(p, dim=-1)` with the order `p` extracted from the source (2: Euclidean, the
+integer square root of `dx² + dy²`, which is the exact distance on integral point sets; 1: `|dx| + |dy|`).
+This is how the generator fills the instance field `orig_distances`. -/
+def distOf (x y : Nat → Int) (a b : Nat) : Int :=
+  let dx := (x a - x b).natAbs
+  let dy := (y a - y b).natAbs
+  if Params.flpDistNormP = 2 then ((Nat.sqrt (dx * dx + dy * dy) : Nat) : Int) else ((dx + dy : Nat) : Int)
+
+/-- an instance given by grid coordinates, as `FLPGenerator._generate` builds it from `locs` -/
+def geomInst (n : Nat) (quota : Int) (x y : Nat → Int) (d0 : Nat → Int) : Inst := ⟨n, quota, distOf x y, d0⟩
+
 structure State where
   chosen : Nat → Bool         -- `chosen`
   i      : Int                -- `i`, the step counter
